@@ -42,7 +42,10 @@ def write_evidence(prop, tier, seed, level, coverage, assumptions, wall_s, viola
               "traces_validated_against_impl"):
         if k in cov:
             cov[k] = int(cov[k])
-    d = os.path.join(VERIF_ROOT, "evidence")
+    from . import REPO_SRC
+    # runs against a scratch tree (seeded or benign change under test) never touch the committed evidence
+    d = os.path.join(VERIF_ROOT, "evidence") if REPO_SRC == "/repo/src" else os.path.join(
+        VERIF_ROOT, "out", "evidence_scratch", str(os.getpid()))
     os.makedirs(d, exist_ok=True)
     path = os.path.join(d, f"{prop}.json")
     tmp = path + ".tmp"
